@@ -471,15 +471,32 @@ def trace_leg(ctx, focus, extra_docs=()):
         ctx.count(("v", j[0]), nontrivial=len(o["ev"]) > 6)
         keep[o["id"]] = (case, o)
         traces.append(o)
-    tf = ctx.wd / "r_traces.ndjson"
-    tlc.write_ndjson(tf, traces)
     consts = {"Grammar": "<-GrammarV", "MaxItems": 0, "MaxDepth": 0, "DevHrAnywhere": False, "DevAltTextOnly": False}
-    rv = tlc.run("RenderTrace", tlc.cfg(ctx, "r_trace.cfg", consts, spec="TraceSpec", invariants=["Verdict", "TreeConsistent", "SectionPlacement", "TransitionPlacement", "TitleOnlyInSection"]),
-                 wd=ctx.wd, env={"TRACE_FILE": str(tf)}, timeout=3000, defs=gdefs(SLICES["blocks"][0]), heap="10g")
-    tlc.expect_holds(rv, "RenderTrace invariants")
-    ctx.add_tlc("RenderTrace", rv)
-    if len(rv.records) != len(traces):
-        raise tlc.MachineryFailure(f"RenderTrace: {len(rv.records)} verdicts for {len(traces)} traces")
+    # TLC reads a batch of traces at start-up: bounded batches, a few TLC processes side by side
+    B = 4000
+    batches = [traces[i:i + B] for i in range(0, len(traces), B)] or [[]]
+
+    def _batch(nb):
+        n, b = nb
+        tf = ctx.wd / f"r_traces_{n}.ndjson"
+        tlc.write_ndjson(tf, b)
+        rv_ = tlc.run("RenderTrace", tlc.cfg(ctx, f"r_trace_{n}.cfg", consts, spec="TraceSpec",
+                                            invariants=["Verdict", "TreeConsistent", "SectionPlacement", "TransitionPlacement", "TitleOnlyInSection"]),
+                      wd=ctx.wd, env={"TRACE_FILE": str(tf)}, timeout=3000, defs=gdefs(SLICES["blocks"][0]), heap="6g", workers=8 if len(batches) > 1 else 16)
+        tlc.expect_holds(rv_, "RenderTrace invariants")
+        if len(rv_.records) != len(b):
+            raise tlc.MachineryFailure(f"RenderTrace: {len(rv_.records)} verdicts for {len(b)} traces")
+        tf.unlink()
+        return rv_
+    from concurrent.futures import ThreadPoolExecutor
+    with ThreadPoolExecutor(3) as ex:
+        rvs = list(ex.map(_batch, enumerate(batches)))
+    for n, rv_ in enumerate(rvs):
+        ctx.add_tlc("RenderTrace" if len(rvs) == 1 else f"RenderTrace_{n}", rv_)
+
+    class _All:
+        records = [x for rv_ in rvs for x in rv_.records]
+    rv = _All
     for v in rv.records:
         case, o = keep[v["id"]]
         ctx.traces_validated += 1
